@@ -102,12 +102,12 @@ Proof. rewrite starts_rle. destruct l; lia. Qed.
 Definition Aeq (a b : iacc) : Prop :=
   i_maxali a = i_maxali b /\ i_counts a = i_counts b /\ i_segs a = i_segs b.
 Definition Req (a b : iacc) : Prop :=
-  i_maxref a = i_maxref b /\ i_ntok a = i_ntok b /\ i_rcounts a = i_rcounts b /\ i_rsegs a = i_rsegs b.
+  i_maxref a = i_maxref b /\ i_rcounts a = i_rcounts b /\ i_rsegs a = i_rsegs b.
 
 Lemma Aeq_ali_upd a b r : Aeq a b -> Aeq (ali_upd a r) (ali_upd b r).
 Proof. destruct r. intros (H1 & H2 & H3). unfold Aeq, ali_upd. cbn. rewrite H1, H2, H3. repeat split. Qed.
 Lemma Req_ref_upd a b r : Req a b -> Req (ref_upd a r) (ref_upd b r).
-Proof. destruct r as [[tok s] e]. intros (H1 & H2 & H3 & H4). unfold Req, ref_upd. cbn. rewrite H1, H2, H3, H4. repeat split. Qed.
+Proof. destruct r as [[tok s] e]. intros (H1 & H3 & H4). unfold Req, ref_upd. cbn. rewrite H1, H3, H4. repeat split. Qed.
 Lemma Aeq_ref_upd a r : Aeq (ref_upd a r) a.
 Proof. destruct r as [[tok s] e]. repeat split. Qed.
 Lemma Req_ali_upd a r : Req (ali_upd a r) a.
@@ -126,22 +126,23 @@ Qed.
 Lemma Req_fold_ali runs : forall a, Req (fold_left ali_upd runs a) a.
 Proof.
   induction runs as [|r t IH]; intro a; cbn; [repeat split|].
-  destruct (IH (ali_upd a r)) as (H1 & H2 & H3 & H4). destruct (Req_ali_upd a r) as (G1 & G2 & G3 & G4).
+  destruct (IH (ali_upd a r)) as (H1 & H2 & H3). destruct (Req_ali_upd a r) as (G1 & G2 & G3).
   repeat split; congruence.
 Qed.
 
 Definition vals_of (u : utt) : list Z := match u_ali u with Some a => ali_values a | None => [] end.
 Definition rows_of (u : utt) : list row := match u_ref u with Some r => ref_rows_of r | None => [] end.
 
+Definition feat_acc (acc : iacc) (u : utt) : iacc :=
+  mkAcc (i_frames acc + Z.of_nat (frames (u_feat u))) (Some (nth 1 (f_shape (u_feat u)) 0%nat))
+        (i_maxali acc) (i_maxref acc)
+        (if is_some (u_ref u) then Z.max 0 (i_ntok acc) else i_ntok acc)
+        (i_counts acc) (i_segs acc) (i_rcounts acc) (i_rsegs acc).
+
 Lemma info_upd_form acc u :
-  info_upd acc u
-  = fold_left ref_upd (rows_of u)
-      (fold_left ali_upd (rle (vals_of u))
-         (mkAcc (i_frames acc + Z.of_nat (frames (u_feat u))) (Some (nth 1 (f_shape (u_feat u)) 0%nat))
-                (i_maxali acc) (i_maxref acc) (i_ntok acc) (i_counts acc) (i_segs acc)
-                (i_rcounts acc) (i_rsegs acc))).
+  info_upd acc u = fold_left ref_upd (rows_of u) (fold_left ali_upd (rle (vals_of u)) (feat_acc acc u)).
 Proof.
-  unfold info_upd, vals_of, rows_of, ref_rows_of.
+  unfold info_upd, vals_of, rows_of, ref_rows_of, feat_acc.
   destruct (u_ali u) as [a|]; destruct (u_ref u) as [r|]; cbn [rle fold_left]; try reflexivity;
     destruct (r_data r) as [t|rows|w [|x rows]|nd]; reflexivity.
 Qed.
@@ -163,14 +164,8 @@ Proof.
   destruct (IH (info_upd acc u)) as (H1 & H2 & H3).
   assert (G : Aeq (info_upd acc u) (fold_left ali_upd (rle (vals_of u)) acc)).
   { rewrite info_upd_form.
-    destruct (Aeq_fold_ref (rows_of u) (fold_left ali_upd (rle (vals_of u))
-       (mkAcc (i_frames acc + Z.of_nat (frames (u_feat u))) (Some (nth 1 (f_shape (u_feat u)) 0%nat))
-              (i_maxali acc) (i_maxref acc) (i_ntok acc) (i_counts acc) (i_segs acc)
-              (i_rcounts acc) (i_rsegs acc)))) as (K1 & K2 & K3).
-    destruct (Aeq_fold_ali (rle (vals_of u))
-       (mkAcc (i_frames acc + Z.of_nat (frames (u_feat u))) (Some (nth 1 (f_shape (u_feat u)) 0%nat))
-              (i_maxali acc) (i_maxref acc) (i_ntok acc) (i_counts acc) (i_segs acc)
-              (i_rcounts acc) (i_rsegs acc)) acc) as (L1 & L2 & L3); [repeat split|].
+    destruct (Aeq_fold_ref (rows_of u) (fold_left ali_upd (rle (vals_of u)) (feat_acc acc u))) as (K1 & K2 & K3).
+    destruct (Aeq_fold_ali (rle (vals_of u)) (feat_acc acc u) acc) as (L1 & L2 & L3); [repeat split|].
     repeat split; congruence. }
   destruct (Aeq_fold_ali (flat_map rle (ali_lists t)) _ _ G) as (M1 & M2 & M3).
   repeat split; congruence.
@@ -185,15 +180,12 @@ Proof.
               = rows_of u ++ concat (ref_lists t)).
   { unfold rows_of. destruct (u_ref u); cbn; rewrite ?app_nil_r; reflexivity. }
   rewrite E, fold_left_app.
-  destruct (IH (info_upd acc u)) as (H1 & H2 & H3 & H4).
+  destruct (IH (info_upd acc u)) as (H1 & H3 & H4).
   assert (G : Req (info_upd acc u) (fold_left ref_upd (rows_of u) acc)).
   { rewrite info_upd_form. apply Req_fold_ref.
-    destruct (Req_fold_ali (rle (vals_of u))
-       (mkAcc (i_frames acc + Z.of_nat (frames (u_feat u))) (Some (nth 1 (f_shape (u_feat u)) 0%nat))
-              (i_maxali acc) (i_maxref acc) (i_ntok acc) (i_counts acc) (i_segs acc)
-              (i_rcounts acc) (i_rsegs acc))) as (K1 & K2 & K3 & K4).
+    destruct (Req_fold_ali (rle (vals_of u)) (feat_acc acc u)) as (K1 & K3 & K4).
     repeat split; assumption. }
-  destruct (Req_fold_ref (concat (ref_lists t)) _ _ G) as (M1 & M2 & M3 & M4).
+  destruct (Req_fold_ref (concat (ref_lists t)) _ _ G) as (M1 & M3 & M4).
   repeat split; congruence.
 Qed.
 
@@ -270,11 +262,38 @@ Qed.
 
 Lemma fold_ref_max rows : forall a,
   i_maxref (fold_left ref_upd rows a) = zmax_list (i_maxref a) (map tok_of rows) /\
-  i_ntok (fold_left ref_upd rows a) = i_ntok a + Z.of_nat (length rows).
+  (0 <= i_ntok a -> i_ntok (fold_left ref_upd rows a) = i_ntok a + Z.of_nat (length rows)).
 Proof.
   induction rows as [|[[tok s] e] t IH]; intro a; cbn [fold_left map tok_of fst length]; [split; [reflexivity|lia]|].
-  destruct (IH (ref_upd a (tok, s, e))) as [-> ->]. cbn [ref_upd i_maxref i_ntok].
-  split; [|lia]. rewrite Z.max_comm, zmax_list_max. reflexivity.
+  destruct (IH (ref_upd a (tok, s, e))) as [-> Hn]. cbn [ref_upd i_maxref i_ntok] in *.
+  split; [rewrite Z.max_comm, zmax_list_max; reflexivity|]. intro H0. rewrite Hn; lia.
+Qed.
+
+Lemma fold_ali_ntok runs : forall a, i_ntok (fold_left ali_upd runs a) = i_ntok a.
+Proof. induction runs as [|[c n] t IH]; intro a; cbn [fold_left]; [reflexivity|]. rewrite IH. reflexivity. Qed.
+
+Lemma info_upd_ntok acc u :
+  i_ntok (info_upd acc u)
+  = match u_ref u with
+    | Some r => Z.max 0 (i_ntok acc) + Z.of_nat (length (ref_rows_of r))
+    | None => i_ntok acc end.
+Proof.
+  rewrite info_upd_form. unfold rows_of. destruct (u_ref u) as [r|] eqn:Er.
+  - rewrite (proj2 (fold_ref_max _ _)); rewrite fold_ali_ntok; unfold feat_acc; rewrite Er; cbn [is_some i_ntok]; lia.
+  - cbn [fold_left]. rewrite fold_ali_ntok. unfold feat_acc. rewrite Er. reflexivity.
+Qed.
+
+Lemma fold_info_ntok d : forall acc,
+  i_ntok (fold_left info_upd d acc)
+  = match ref_lists d with
+    | [] => i_ntok acc
+    | _ => Z.max 0 (i_ntok acc) + Z.of_nat (length (concat (ref_lists d))) end.
+Proof.
+  induction d as [|u t IH]; intro acc; [reflexivity|].
+  cbn [fold_left]. rewrite IH, info_upd_ntok, ref_lists_cons.
+  destruct (u_ref u) as [r|]; cbn [app concat].
+  - rewrite app_length. destruct (ref_lists t); cbn [concat length]; lia.
+  - reflexivity.
 Qed.
 
 Lemma fold_ref_segs i rows : forall a,
@@ -285,7 +304,7 @@ Proof.
 Qed.
 
 Definition rc_step (rc : Z) (r : row) : Z :=
-  let '(_, s, e) := r in if (rc >=? 0) && (e >? s) && (s >=? 0) then rc + e - s else -1.
+  let '(_, s, e) := r in if (rc >=? 0) && (e >=? s) && (s >=? 0) then rc + e - s else -1.
 
 Lemma fold_ref_rcounts i rows : forall a dflt,
   aget (i_rcounts (fold_left ref_upd rows a)) i dflt
@@ -301,8 +320,8 @@ Proof.
   - reflexivity.
 Qed.
 
-(* a row either has no boundaries or a non-empty segment *)
-Definition row_counted (r : row) : Prop := let '(_, s, e) := r in (s < 0 /\ e < 0) \/ (0 <= s /\ s < e).
+(* a row of a valid directory: no boundaries, or a (possibly empty) segment *)
+Definition row_counted (r : row) : Prop := let '(_, s, e) := r in (s < 0 /\ e < 0) \/ (0 <= s /\ s <= e).
 
 Lemma rc_fold_poison l : fold_left rc_step l (-1) = -1.
 Proof. induction l as [|[[tok s] e] t IH]; cbn [fold_left rc_step]; [reflexivity|]. cbn. apply IH. Qed.
@@ -316,7 +335,7 @@ Proof.
   unfold rc_step at 2. unfold row_counted in Hr.
   destruct (Z.ltb_spec s 0), (Z.ltb_spec e 0); cbn [orb]; try lia.
   - destruct (Z.geb_spec s 0); [lia|]. rewrite andb_false_r. apply rc_fold_poison.
-  - destruct (Z.geb_spec rc 0); [|lia]. destruct (Z.gtb_spec e s); [|lia]. destruct (Z.geb_spec s 0); [|lia].
+  - destruct (Z.geb_spec rc 0); [|lia]. destruct (Z.geb_spec e s); [|lia]. destruct (Z.geb_spec s 0); [|lia].
     cbn [andb]. rewrite IH by lia. destruct (existsb _ t); lia.
 Qed.
 
@@ -337,41 +356,34 @@ Proof.
   intro H. eapply Forall_impl; [|exact H]. intros u ((_ & _ & T & Hs) & _). rewrite Hs. reflexivity.
 Qed.
 
-Lemma wf_rows_counted d : WellFormed d -> no_empty_segment d -> Forall row_counted (concat (ref_lists d)).
+Lemma wf_rows_counted d : WellFormed d -> Forall row_counted (concat (ref_lists d)).
 Proof.
-  intros (F & dt & d2 & H) Hne. unfold no_empty_segment in Hne.
+  intros (F & dt & d2 & H).
   induction H as [|u t Hu Ht IH]; [constructor|].
   rewrite ref_lists_cons in *. destruct (u_ref u) as [r|] eqn:Er; cbn [app concat] in *; [|apply IH; assumption].
-  inversion Hne as [|? ? Hn1 Hn2]; subst. apply Forall_app. split; [|apply IH; assumption].
+  apply Forall_app. split; [|apply IH; assumption].
   destruct Hu as (_ & _ & Hr). specialize (Hr _ Er).
   destruct Hr as (_ & _ & [(_ & tks & E)|(_ & rows & E & HB)]); unfold ref_rows_of in *; rewrite E in *.
   - apply Forall_forall. intros x Hx. apply in_map_iff in Hx. destruct Hx as (tok & <- & _). left. lia.
-  - apply Forall_forall. intros [[tok s] e] Hx. rewrite Forall_forall in HB, Hn1.
-    specialize (HB _ Hx). specialize (Hn1 _ Hx). cbn in *. lia.
+  - apply Forall_forall. intros [[tok s] e] Hx. rewrite Forall_forall in HB.
+    specialize (HB _ Hx). cbn in *. lia.
 Qed.
 
-Lemma report_is_recount d :
-  WellFormed d -> no_empty_segment d -> tokens_counted d ->
-  finish (length d) (fold_left info_upd d acc0) = recount d.
+Lemma report_is_recount d : WellFormed d -> finish (length d) (fold_left info_upd d acc0) = recount d.
 Proof.
-  intros Hw Hne Htc.
-  pose proof (wf_rows_counted d Hw Hne) as Hrc.
+  intros Hw.
+  pose proof (wf_rows_counted d Hw) as Hrc.
   destruct Hw as (F & dt & d2 & HF).
   destruct (fold_info_Aeq d acc0) as (A1 & A2 & A3).
-  destruct (fold_info_Req d acc0) as (R1 & R2 & R3 & R4).
+  destruct (fold_info_Req d acc0) as (R1 & R3 & R4).
   unfold finish, recount.
-  rewrite A1, A2, A3, R1, R2, R3, R4.
-  rewrite fold_ali_max, (proj1 (fold_ref_max _ _)), (proj2 (fold_ref_max _ _)).
+  rewrite A1, A2, A3, R1, R3, R4.
+  rewrite fold_ali_max, (proj1 (fold_ref_max _ _)), fold_info_ntok.
   rewrite zmax_flat_rle. cbn [acc0 i_maxali i_maxref i_ntok].
   rewrite fold_info_frames, (fold_info_nf F d (wf_widths _ _ _ _ HF)). cbn [acc0 i_frames i_nf].
   f_equal.
   - destruct d as [|u t]; [reflexivity|]. inversion HF as [|? ? ((_ & _ & T & Hs) & _) _]; subst.
     rewrite Hs. reflexivity.
-  - destruct Htc as [E|E].
-    + rewrite E. reflexivity.
-    + destruct (ref_lists d) as [|l ls] eqn:El; [contradiction E; reflexivity|].
-      destruct (concat (l :: ls)) as [|x xs] eqn:Ec; [contradiction E; reflexivity|].
-      cbn [length]. destruct (Z.eqb_spec (0 + Z.of_nat (S (length xs))) 0); lia.
   - apply map_ext. intro i.
     rewrite (proj1 (fold_ali_counts i _ _)), (proj2 (fold_ali_counts i _ _)).
     cbn [acc0 i_counts i_segs aget]. rewrite count_flat_rle, starts_flat_rle. reflexivity.
@@ -409,10 +421,10 @@ Qed.
 
 (* get-torch-spect-data-dir-info on a valid directory: any flags, nothing changes, the report is the recount *)
 Lemma cli_report_on_valid strict fx d :
-  WellFormed d -> tokens_nonneg d -> classes_nonneg d -> no_empty_segment d -> tokens_counted d ->
+  WellFormed d -> tokens_nonneg d -> classes_nonneg d ->
   cli_info strict fx d = (d, inr (recount d)).
 Proof.
-  intros Hw Ht Hc Hne Htc.
+  intros Hw Ht Hc.
   destruct (cli_validates strict fx) eqn:Ev.
   - rewrite (cli_like_validate strict fx d Ev Hc).
     assert (Hp : plain_yield cfg_plain) by (split; reflexivity).
@@ -423,17 +435,17 @@ Proof.
     destruct Hw as (F & dt & d2 & HF) eqn:Ew. clear Ew.
     rewrite (run_info false fx d st0 acc0 acc0 d (inr acc0)
                (run_unvalidated_valid fx F dt d2 d HF Ht st0 acc0) (proj1 (classes_nonneg_utts d) Hc)).
-    rewrite report_is_recount; [reflexivity| |assumption|assumption]. exists F, dt, d2. assumption.
+    rewrite report_is_recount; [reflexivity|]. exists F, dt, d2. assumption.
 Qed.
 
 (* --strict / --fix N (any N) on any directory that the tolerance can repair: the files afterwards are the
    repaired ones and the report is their recount *)
 Lemma cli_report_after_fix strict fx d :
   cli_validates strict fx = true -> tokens_nonneg d -> classes_nonneg d ->
-  WellFormed (repair fx d) -> no_empty_segment (repair fx d) -> tokens_counted (repair fx d) ->
+  WellFormed (repair fx d) ->
   cli_info strict fx d = (repair fx d, inr (recount (repair fx d))).
 Proof.
-  intros Ev Ht Hc Hw Hne Htc.
+  intros Ev Ht Hc Hw.
   rewrite (cli_like_validate strict fx d Ev Hc).
   assert (Hp : plain_yield cfg_plain) by (split; reflexivity).
   assert (Hs : syms_nonneg cfg_plain) by (split; intros s H; discriminate).
